@@ -77,6 +77,15 @@ add("C03", "exploration",
     "stability across library changes is only observable from the pin (corpus/pinned.json, generated after this work's fix: commits) onwards",
     "runtime monitoring: cross-environment signature-map equality monitor + pinned-corpus regression oracle", "E1-pipeline")
 
+add("C11", "exploration",
+    "Rejection monitor: generated ill-formed evaluations - every ordered set of 1-3 kept paths (sampled sets of 4) over 18 paths with 5 placements, every call cycle of length 1-4 over 4 edge kinds, dds.eval nested at depth 0-4 behind calls/keeps/methods - are run by the real dds; oracle from generator ground truth = expected DDS error code, empty execution log, no store_blob / sync_paths, unchanged store tree, clean context, and a working follow-up evaluation. Held on the cases observed (one listed finding).",
+    "offending calls live in accepted modules; ground truth = strict-prefix relation on segment sequences and the generated call graph",
+    "runtime monitoring: error-code / execution-log / store-effect monitor with generator ground truth", "E1-pipeline")
+add("C15", "exploration",
+    "Dry-run monitor: programs x every prefix of the stage order in 5 spellings x 3 stores x fresh/populated store; observed: execution log, store_blob and sync_paths calls at a wrapping Store, store tree hash, signature map of the restricted run, path state before/after, and value / log / signatures of the following full evaluation (same or new process) against a clean twin run and the dds-free reference. Held on the cases observed.",
+    "dry-run signature map read through a counted harness wrapper on an internal helper",
+    "runtime monitoring: side-effect monitor (log, Store calls, tree hash) + twin-run signature comparison", "E1-pipeline")
+
 NOT_YET = {}
 
 
